@@ -919,4 +919,467 @@ theorem getItem_sources (env : Env α) (eid : α) (st : Store α) :
         · exact ⟨s, List.mem_cons_self .., Or.inr (h.trans hhead)⟩
         · exact ⟨x, List.mem_cons_of_mem _ h, Or.inl rfl⟩
 
+
+theorem serviceLoop_sources (env : Env α) (eid : α) (k : Kind) (svc : α) (b : Option α) (st : Store α) (known : Bool) :
+    ∀ x ∈ (serviceLoop env eid k svc b st known).2, ∃ y ∈ st, x = y ∨ x = (srcGet env y eid).2 := by
+  induction st generalizing known with
+  | nil => intro x hx; unfold serviceLoop at hx; cases hx
+  | cons s rest ih =>
+    intro x hx
+    unfold serviceLoop at hx
+    have tail : ∀ kn, x ∈ (serviceLoop env eid k svc b rest kn).2 → ∃ y ∈ s :: rest, x = y ∨ x = (srcGet env y eid).2 := by
+      intro kn h
+      obtain ⟨y, hy, hxy⟩ := ih kn x h
+      exact ⟨y, List.mem_cons_of_mem _ hy, hxy⟩
+    have head : x = (srcGet env s eid).2 → ∃ y ∈ s :: rest, x = y ∨ x = (srcGet env y eid).2 :=
+      fun h => ⟨s, List.mem_cons_self .., Or.inr h⟩
+    have old : x ∈ rest → ∃ y ∈ s :: rest, x = y ∨ x = (srcGet env y eid).2 :=
+      fun h => ⟨x, List.mem_cons_of_mem _ h, Or.inl rfl⟩
+    cases hs : srcGet env s eid with
+    | mk r s' =>
+      rw [hs] at hx
+      have hhead : s' = (srcGet env s eid).2 := by rw [hs]
+      cases r with
+      | raised =>
+        simp only at hx
+        rcases List.mem_cons.mp hx with h | h
+        · exact head (h.trans hhead)
+        · exact old h
+      | keyErr =>
+        simp only at hx
+        rcases List.mem_cons.mp hx with h | h
+        · exact head (h.trans hhead)
+        · exact tail _ h
+      | ok e =>
+        simp only at hx
+        split at hx
+        · rcases List.mem_cons.mp hx with h | h
+          · exact head (h.trans hhead)
+          · exact tail _ h
+        · split at hx
+          · rcases List.mem_cons.mp hx with h | h
+            · exact head (h.trans hhead)
+            · exact tail _ h
+          · rcases List.mem_cons.mp hx with h | h
+            · exact head (h.trans hhead)
+            · exact old h
+
+theorem attrReqLoop_sources (env : Env α) (eid : α) (st : Store α) :
+    ∀ x ∈ (attrReqLoop env eid st).2, ∃ y ∈ st, x = y ∨ x = (srcGet env y eid).2 := by
+  induction st with
+  | nil => intro x hx; cases hx
+  | cons s rest ih =>
+    intro x hx
+    unfold attrReqLoop at hx
+    split at hx
+    · simp only at hx
+      rcases List.mem_cons.mp hx with h | h
+      · exact ⟨s, List.mem_cons_self .., Or.inr h⟩
+      · exact ⟨x, List.mem_cons_of_mem _ h, Or.inl rfl⟩
+    · simp only at hx
+      rcases List.mem_cons.mp hx with h | h
+      · exact ⟨s, List.mem_cons_self .., Or.inl h⟩
+      · obtain ⟨y, hy, hxy⟩ := ih x h
+        exact ⟨y, List.mem_cons_of_mem _ hy, hxy⟩
+
+theorem query_snd (env : Env α) (st : Store α) (q : Query α) :
+    (query env st q).2 =
+      match q with
+      | .get eid => (getItem env eid st).2
+      | .service eid k svc b => (serviceLoop env eid k svc b st false).2
+      | .certs eid _ _ => (getItem env eid st).2
+      | .attrReq eid _ => (attrReqLoop env eid st).2
+      | .cats eid => (getItem env eid st).2
+      | .reg eid => (getItem env eid st).2
+      | .keys => st
+      | .items => st
+      | .withDesc _ => st := by
+  cases q with
+  | get eid => simp only [query]; cases h : getItem env eid st with | mk r st' => cases r <;> rfl
+  | service eid k svc b =>
+    simp only [query]; cases h : serviceLoop env eid k svc b st false with | mk r st' => cases r <;> rfl
+  | certs eid k use => simp only [query]; cases h : getItem env eid st with | mk r st' => cases r <;> rfl
+  | attrReq eid index =>
+    simp only [query]
+    cases h : attrReqLoop env eid st with
+    | mk r st' =>
+      cases r with
+      | none => rfl
+      | some r => cases r <;> rfl
+  | cats eid => simp only [query]; cases h : getItem env eid st with | mk r st' => cases r <;> rfl
+  | reg eid => simp only [query]; cases h : getItem env eid st with | mk r st' => cases r <;> rfl
+  | keys => rfl
+  | items => rfl
+  | withDesc k => rfl
+
+theorem query_sources (env : Env α) (st : Store α) (q : Query α) :
+    ∀ x ∈ (query env st q).2, ∃ y ∈ st, x = y ∨ ∃ eid, x = (srcGet env y eid).2 := by
+  intro x hx
+  rw [query_snd] at hx
+  have lift : ∀ eid, (∃ y ∈ st, x = y ∨ x = (srcGet env y eid).2) → ∃ y ∈ st, x = y ∨ ∃ eid, x = (srcGet env y eid).2 := by
+    rintro eid ⟨y, hy, h | h⟩
+    · exact ⟨y, hy, Or.inl h⟩
+    · exact ⟨y, hy, Or.inr ⟨eid, h⟩⟩
+  cases q with
+  | get eid => exact lift eid (getItem_sources env eid st x hx)
+  | service eid k svc b => exact lift eid (serviceLoop_sources env eid k svc b st false x hx)
+  | certs eid k use => exact lift eid (getItem_sources env eid st x hx)
+  | attrReq eid index => exact lift eid (attrReqLoop_sources env eid st x hx)
+  | cats eid => exact lift eid (getItem_sources env eid st x hx)
+  | reg eid => exact lift eid (getItem_sources env eid st x hx)
+  | keys => exact ⟨x, hx, Or.inl rfl⟩
+  | items => exact ⟨x, hx, Or.inl rfl⟩
+  | withDesc k => exact ⟨x, hx, Or.inl rfl⟩
+
+theorem SrcOk.mono {p2 : α} {h h' : List (Step α)} {src : Source α} (hsub : ∀ s ∈ h, s ∈ h')
+    (hok : SrcOk p2 h src) : SrcOk p2 h' src :=
+  fun p hp => (hok p hp).mono hsub
+
+theorem step_ok (c : Consts α) (h : List (Step α)) (s : Step α) (st : Store α) (hst : ∀ x ∈ st, SrcOk c.p2 h x) :
+    ∀ x ∈ (step Policy.ideal c st s).2, SrcOk c.p2 (h ++ [s]) x := by
+  have hsub : ∀ t ∈ h, t ∈ h ++ [s] := fun t ht => List.mem_append_left _ ht
+  have hst' : ∀ x ∈ st, SrcOk c.p2 (h ++ [s]) x := fun x hx => (hst x hx).mono hsub
+  have hnew : ∀ sp ∈ specsOf s.op, ∀ src, loadSource Policy.ideal c.p2 s.now sp = .ok src → SrcOk c.p2 (h ++ [s]) src :=
+    fun sp hsp src hl => (loadSource_ok hsp hl).mono (fun t ht => List.mem_append_right _ ht)
+  unfold step
+  cases hop : s.op with
+  | imp specs =>
+    simp only
+    rw [hop] at hnew
+    exact impFrom_inv _ c.p2 s.now specs st hst' hnew
+  | reload specs =>
+    simp only
+    rw [hop] at hnew
+    unfold reload
+    cases hi : impFrom Policy.ideal c.p2 s.now [] specs with
+    | mk st' ok =>
+      have := impFrom_inv (SrcOk c.p2 (h ++ [s])) c.p2 s.now specs [] (by simp) hnew
+      rw [hi] at this
+      cases ok
+      · exact hst'
+      · exact this
+  | q qu =>
+    simp only
+    intro x hx
+    obtain ⟨y, hy, hxy | ⟨eid, hxy⟩⟩ := query_sources _ st qu x hx
+    · rw [hxy]; exact hst' y hy
+    · rw [hxy]; exact srcGet_ok (List.mem_append_right _ (List.mem_singleton.mpr rfl)) (hst' y hy) eid
+
+theorem run_ok (c : Consts α) (h0 h : List (Step α)) (st : Store α) (hst : ∀ x ∈ st, SrcOk c.p2 h0 x) :
+    ∀ x ∈ (run Policy.ideal c st h).2, SrcOk c.p2 (h0 ++ h) x := by
+  induction h generalizing h0 st with
+  | nil => simpa [run] using hst
+  | cons s rest ih =>
+    rw [run_cons]
+    simp only
+    have := ih (h0 ++ [s]) _ (step_ok c h0 s st hst)
+    simpa using this
+
+/-- **Soundness over every history** (reference policy).  After ANY sequence of load / reload /
+    lookup steps, with ANY answers of the sources and MDQ servers, every entry that any source of the
+    store holds — hence everything any lookup can return, see `C11_get_from_store` — is what
+    authentic, current metadata says: it stems from a document handed out during the history,
+    signed verifiably if the source has a certificate, in which the entity was not past its
+    validUntil when read, restricted to its SAML 2.0 descriptors. -/
+theorem C11_served_is_justified (c : Consts α) (h : List (Step α)) :
+    ∀ src ∈ (run Policy.ideal c [] h).2, ∀ p ∈ src.entities, Justified c.p2 h src p.1 p.2 := by
+  intro src hsrc p hp
+  exact run_ok c [] h [] (by simp) src hsrc p hp
+
+theorem mdxFetch_ok_mem {pol : Policy} {p2 : α} {now : Int} {resp : Fetch α} {s : Source α} {eid : α} {e : Ent α}
+    (h : (mdxFetch pol p2 now resp s eid).1 = .ok e) : (eid, e) ∈ (mdxFetch pol p2 now resp s eid).2.entities := by
+  unfold mdxFetch at h ⊢
+  cases resp with
+  | unavailable => simp at h
+  | malformed => simp at h
+  | doc d =>
+    simp only at h ⊢
+    cases hp : parseDoc pol s.chk now p2 s.entities d with
+    | error _ => rw [hp] at h; simp at h
+    | ok m =>
+      rw [hp] at h
+      simp only at h ⊢
+      split at h
+      · next hc =>
+        simp only [hc, ↓reduceIte]
+        cases hl : lookup m eid with
+        | none => rw [hl] at h; simp at h
+        | some e1 =>
+          rw [hl] at h
+          simp only [Res.ok.injEq] at h
+          subst h
+          exact lookup_mem hl
+      · simp at h
+
+theorem srcGet_ok_mem {env : Env α} {s : Source α} {eid : α} {e : Ent α}
+    (h : (srcGet env s eid).1 = .ok e) : (eid, e) ∈ (srcGet env s eid).2.entities := by
+  unfold srcGet at h ⊢
+  split
+  · next hk =>
+    simp only [hk, ↓reduceIte] at h
+    unfold mdxGet at h ⊢
+    split
+    · next h0 => simp only [h0, ↓reduceIte] at h; exact mdxFetch_ok_mem h
+    · next h0 =>
+      simp only [h0, Bool.false_eq_true, ↓reduceIte] at h
+      split
+      · next hkv => rw [hkv] at h; simp at h
+      · next t hkv =>
+        rw [hkv] at h
+        simp only at h
+        split
+        · next hle =>
+          simp only [hle, ↓reduceIte] at h
+          cases hl : lookup s.entities eid with
+          | none => rw [hl] at h; simp at h
+          | some e1 => rw [hl] at h; simp only [Res.ok.injEq] at h; subst h; exact lookup_mem hl
+        · next hle => simp only [hle, ↓reduceIte] at h; exact mdxFetch_ok_mem h
+  · next hk =>
+    simp only [hk, ↓reduceIte] at h
+    cases hl : lookup s.entities eid with
+    | none => rw [hl] at h; simp at h
+    | some e1 => rw [hl] at h; simp only [Res.ok.injEq] at h; subst h; exact lookup_mem hl
+
+/-- Whatever `store[eid]` returns is an entry of a source of the store after the lookup (any policy). -/
+theorem C11_get_from_store (env : Env α) (eid : α) (st : Store α) (e : Ent α)
+    (h : (getItem env eid st).1 = .ok e) : ∃ src ∈ (getItem env eid st).2, (eid, e) ∈ src.entities := by
+  induction st with
+  | nil => simp [getItem] at h
+  | cons s rest ih =>
+    unfold getItem at h ⊢
+    cases hs : srcGet env s eid with
+    | mk r s' =>
+      rw [hs] at h
+      have hmem : ∀ e', r = .ok e' → (eid, e') ∈ s'.entities := by
+        intro e' hr
+        have := @srcGet_ok_mem α _ env s eid e' (by rw [hs]; exact hr)
+        rw [hs] at this; exact this
+      cases r with
+      | keyErr =>
+        simp only at h ⊢
+        obtain ⟨src, hsrc, hm⟩ := ih h
+        exact ⟨src, List.mem_cons_of_mem _ hsrc, hm⟩
+      | ok e1 =>
+        simp only [Res.ok.injEq] at h ⊢
+        subst h
+        exact ⟨s', List.mem_cons_self .., hmem _ rfl⟩
+      | raised => simp at h
+
+
+/-! ## F. The pinned code against the specification -/
+
+/-- The reference machine is accepted by the checker built on it (sanity of `ansOk`). -/
+theorem C11_reference_meets_spec (c : Consts α) (h : List (Step α)) :
+    specRun c h (run Policy.ideal c [] h).1 = true :=
+  allOk_refl _
+
+/-- FULL statement: on every history the observations of the model of the pinned code are
+    acceptable to the specification.  FALSE of the pinned code — three independent root causes,
+    see the counter-examples below. -/
+def C11_model_meets_spec_full : Prop :=
+  ∀ (c : Consts Nat) (h : List (Step Nat)), specRun c h (run Policy.code c [] h).1 = true
+
+/-- The model of the pinned code meets the specification on every history that satisfies the
+    explicit, decidable side condition `cleanRun`: no unsigned document for a source with a
+    certificate (F9), no MDQ answer with a bad signature for an MDQ source with a certificate (F11),
+    no non-SAML-2.0 descriptor beside a SAML 2.0 descriptor of the same kind (F18).  On such
+    histories code and reference make the same observations and reach the same store. -/
+theorem C11_model_meets_spec_partial (c : Consts α) (h : List (Step α)) (hc : cleanRun c [] h = true) :
+    run Policy.code c [] h = run Policy.ideal c [] h ∧ specRun c h (run Policy.code c [] h).1 = true := by
+  have := run_code_eq_ideal c h [] hc
+  exact ⟨this, by rw [this]; exact C11_reference_meets_spec c h⟩
+
+/-! concrete witnesses (strings are numbers here) -/
+def cN : Consts Nat := { p2 := 2, ecName := 3, trueStr := 4 }
+def roleN (k : Kind) (protos : List Nat) (loc : Nat) : Role Nat :=
+  { kind := k, protocols := protos, endpoints := [{ svc := 10, binding := 20, location := loc }],
+    keys := [{ use := none, cert := 30 }], reqAttrs := [] }
+def entN (id tag : Nat) (roles : List (Role Nat)) : Ent Nat :=
+  { id := id, tag := tag, validUntil := none, roles := roles, attrs := [(3, [40])], regs := [] }
+def docN (sig : Sig) (e : Ent Nat) : Doc Nat := { group := false, validUntil := none, sig := sig, entities := [e] }
+def qStep (now : Int) (mdq : List (MdqResp Nat)) (q : Query Nat) : Step Nat := { now := now, mdq := mdq, op := .q q }
+def specN (k : SrcKind) (cert : Bool) (f : Fetch Nat) : SrcSpec Nat :=
+  { key := 1, kind := k, cert := cert, chk := true, fresh := 600, fetch := f }
+def impStep (sp : SrcSpec Nat) : Step Nat := { now := 0, mdq := [], op := .imp [sp] }
+def idpN : Ent Nat := entN 7 1 [roleN .idpsso [2] 50]
+
+/-- F9: a remote source with a certificate is handed an unsigned document. -/
+def hF9 : List (Step Nat) := [impStep (specN .remote true (.doc (docN .unsigned idpN))), qStep 0 [] (.get 7)]
+
+/-- F11: an MDQ source with a certificate gets an answer signed with the wrong key. -/
+def badN : List (MdqResp Nat) := [{ src := 1, eid := 7, fetch := .doc (docN .wrongKey idpN) }]
+def hF11 : List (Step Nat) := [impStep (specN .mdq true .unavailable), qStep 0 badN (.get 7), qStep 0 badN .keys]
+
+/-- F18: a SAML-1.1-only IDPSSODescriptor beside a SAML 2.0 one. -/
+def mixedN : Ent Nat := entN 7 1 [roleN .idpsso [2] 50, roleN .idpsso [9] 51]
+def hF18 : List (Step Nat) :=
+  [impStep (specN .inline false (.doc (docN .unsigned mixedN))), qStep 0 [] (.service 7 .idpsso 10 (some 20))]
+
+/-- F9 — certificate configured, unsigned document: the code loads and serves it. -/
+theorem C11_model_meets_spec_counterexample : ¬ C11_model_meets_spec_full := by
+  intro h
+  have := h cN hF9
+  revert this
+  decide
+
+/-- F11 — MDQ answer that fails verification stays listed by `keys()`. -/
+theorem C11_model_meets_spec_counterexample_mdq : ¬ C11_model_meets_spec_full := by
+  intro h
+  have := h cN hF11
+  revert this
+  decide
+
+/-- F18 — the SAML-1.1-only descriptor's endpoint is returned by `service()`. -/
+theorem C11_model_meets_spec_counterexample_sibling : ¬ C11_model_meets_spec_full := by
+  intro h
+  have := h cN hF18
+  revert this
+  decide
+
+/-! ### the three departures, each at the place where it arises -/
+
+/-- F9, FULL: a source with a certificate is loaded only from a document whose signature verifies. -/
+def C11_authentic_load_code_full : Prop :=
+  ∀ (p2 : Nat) (now : Int) (sp : SrcSpec Nat) (s : Source Nat),
+    loadSource Policy.code p2 now sp = .ok s → sp.kind ≠ .mdq → effCert sp.kind sp.cert = true →
+    ∃ d, sp.fetch = .doc d ∧ d.sig = .valid
+
+/-- F9, PARTIAL: true of the code for every document that carries a signature. -/
+theorem C11_authentic_load_code_partial (p2 : α) (now : Int) (sp : SrcSpec α) (s : Source α)
+    (h : loadSource Policy.code p2 now sp = .ok s) (hk : sp.kind ≠ .mdq) (hc : effCert sp.kind sp.cert = true)
+    (hsigned : ∀ d, sp.fetch = .doc d → d.sig ≠ .unsigned) :
+    ∃ d, sp.fetch = .doc d ∧ d.sig = .valid := by
+  obtain ⟨d, hf, _, hs, _⟩ := C11_load_exact Policy.code p2 now sp s h hk
+  refine ⟨d, hf, ?_⟩
+  rw [hc] at hs
+  have := hsigned d hf
+  unfold checkSig at hs
+  cases hsig : d.sig <;> simp_all
+
+theorem C11_authentic_load_code_counterexample : ¬ C11_authentic_load_code_full := by
+  intro h
+  have := h 2 0 (specN .remote true (.doc (docN .unsigned idpN)))
+    { key := 1, kind := .remote, cert := true, chk := true, fresh := 600, entities := [(7, idpN)], expiry := [] }
+    rfl (by decide) (by decide)
+  obtain ⟨d, hf, hs⟩ := this
+  simp only [specN, Fetch.doc.injEq] at hf
+  subst hf
+  exact absurd hs (by decide)
+
+/-- F11, FULL: after an MDQ lookup that did not produce the entity, the source does not list it. -/
+def C11_failed_refresh_serves_nothing_code_full : Prop :=
+  ∀ (p2 : Nat) (now : Int) (resp : Fetch Nat) (s : Source Nat) (eid : Nat),
+    refetches now s eid → onTopic resp eid →
+    (∀ e, (mdxGet Policy.code p2 now resp s eid).1 ≠ .ok e) →
+    has (mdxGet Policy.code p2 now resp s eid).2.entities eid = false
+
+/-- F11, PARTIAL: true of the code whenever the answer is one the certificate accepts (or no
+    certificate is configured) and has no mixed-protocol descriptors. -/
+theorem C11_failed_refresh_serves_nothing_code_partial (p2 : α) (now : Int) (resp : Fetch α) (s : Source α) (eid : α)
+    (hclean : fetchClean p2 s.cert resp) (hre : refetches now s eid) (hot : onTopic resp eid)
+    (hfail : ∀ e, (mdxGet Policy.code p2 now resp s eid).1 ≠ .ok e) :
+    has (mdxGet Policy.code p2 now resp s eid).2.entities eid = false := by
+  rw [mdxGet_code_eq_ideal hclean] at hfail ⊢
+  exact C11_failed_refresh_serves_nothing p2 now resp s eid hre hot hfail
+
+def mdqSrcN : Source Nat := { key := 1, kind := .mdq, cert := true, chk := true, fresh := 600, entities := [], expiry := [] }
+
+theorem C11_failed_refresh_serves_nothing_code_counterexample : ¬ C11_failed_refresh_serves_nothing_code_full := by
+  intro h
+  have hr : (mdxGet Policy.code 2 0 (.doc (docN .wrongKey idpN)) mdqSrcN 7).1 = .raised := by decide
+  have := h 2 0 (.doc (docN .wrongKey idpN)) mdqSrcN 7 (Or.inl (by decide))
+    (by intro d hd e he; cases hd; revert he; simp [docEntities, docN, idpN, entN]; intro h; rw [h])
+    (by intro e; rw [hr]; simp)
+  revert this
+  decide
+
+/-- F18, FULL: the served descriptor has exactly the SAML 2.0 role descriptors of the document's entity. -/
+def C11_non_saml2_roles_not_served_code_full : Prop :=
+  ∀ (p2 : Nat) (e e' : Ent Nat), prepEnt Policy.code p2 e = some e' → ∀ r, r ∈ e'.roles ↔ r ∈ e.roles ∧ saml2 p2 r = true
+
+/-- F18, PARTIAL: true of the code for every entity whose descriptors of one kind agree on SAML 2.0 support. -/
+theorem C11_non_saml2_roles_not_served_code_partial (p2 : α) (e e' : Ent α) (hclean : entClean p2 e = true)
+    (h : prepEnt Policy.code p2 e = some e') : ∀ r, r ∈ e'.roles ↔ r ∈ e.roles ∧ saml2 p2 r = true := by
+  rw [prepEnt_code_eq_ideal hclean] at h
+  exact (C11_non_saml2_roles_not_served p2 e e' h).2.2.2.2.1
+
+theorem C11_non_saml2_roles_not_served_code_counterexample : ¬ C11_non_saml2_roles_not_served_code_full := by
+  intro h
+  have := (h 2 mixedN mixedN (by decide) (roleN .idpsso [9] 51)).mp (by decide)
+  revert this
+  decide
+
+/-- Soundness over every clean history, for the model of the pinned code. -/
+theorem C11_served_is_justified_code_partial (c : Consts α) (h : List (Step α)) (hc : cleanRun c [] h = true) :
+    ∀ src ∈ (run Policy.code c [] h).2, ∀ p ∈ src.entities, Justified c.p2 h src p.1 p.2 := by
+  rw [run_code_eq_ideal c h [] hc]
+  exact C11_served_is_justified c h
+
+
+/-! ## G. Non-vacuity: concrete instances meeting the hypotheses of the theorems above -/
+
+-- A: lookups on one descriptor
+example : roleEndpoints idpN .idpsso 10 = some [{ svc := 10, binding := 20, location := 50 }] := by decide
+example : selectBinding [({ svc := 10, binding := 20, location := 50 } : Endpoint Nat), { svc := 10, binding := 21, location := 51 }] (some 21)
+    = [{ svc := 10, binding := 21, location := 51 }] := by decide
+example : certsOf idpN (some .idpsso) 99 = some [30] := by decide
+example : certsOf idpN (some .spsso) 99 = none := by decide
+example : catsOf 3 idpN = [40] := by decide
+def spRoleN : Role Nat :=
+  { kind := .spsso, protocols := [2], endpoints := [], keys := [],
+    reqAttrs := [{ acs := 0, name := 60, required := some 4 }, { acs := 1, name := 61, required := none }] }
+example : attrReqOf 4 (entN 7 1 [spRoleN]) none = ([60], [61]) ∧ attrReqOf 4 (entN 7 1 [spRoleN]) (some 1) = ([], [61]) := by decide
+
+-- B: the filters of one document: expired, SAML-1.1-only, first occurrence, repeated occurrence
+def expiredN : Ent Nat := { idpN with tag := 90, validUntil := some 5 }
+def oldProtoN : Ent Nat := entN 8 91 [roleN .idpsso [9] 52]
+def repeatN : Ent Nat := entN 7 92 [roleN .spsso [2] 53]
+def groupN : Doc Nat := { group := true, validUntil := some 100, sig := .valid, entities := [expiredN, oldProtoN, idpN, repeatN] }
+example : ∃ m, parseDoc Policy.ideal true 10 2 [] groupN = .ok m ∧ m = [(7, idpN)] := ⟨_, rfl, by decide⟩
+example : eligible Policy.ideal true 10 2 idpN = true ∧ eligible Policy.ideal true 10 2 expiredN = false ∧
+    eligible Policy.ideal true 10 2 oldProtoN = false := by decide
+example : prepEnt Policy.ideal 2 mixedN = some (entN 7 1 [roleN .idpsso [2] 50]) := by decide
+example : ∃ e, parseDoc Policy.ideal true 101 2 ([] : EntMap Nat) groupN = .error e := ⟨_, rfl⟩
+example : ∃ s, loadSource Policy.ideal 2 0 (specN .remote true (.doc (docN .valid idpN))) = .ok s := ⟨_, rfl⟩
+example : ∃ e, loadSource Policy.ideal 2 0 (specN .remote true (.doc (docN .unsigned idpN))) = .error e := ⟨_, rfl⟩
+example : ∃ e, loadSource Policy.code 2 0 (specN .remote true (.doc (docN .tampered idpN))) = .error e := ⟨_, rfl⟩
+
+-- C: two sources listing the same entityID; the first knows the entity but has nothing for binding 21
+def src1N : Source Nat := { key := 1, kind := .file, cert := false, chk := true, fresh := 0, entities := [(7, idpN)], expiry := [] }
+def role21N : Role Nat := { (roleN .idpsso [2] 54) with endpoints := [{ svc := 10, binding := 21, location := 54 }] }
+def src2N : Source Nat :=
+  { key := 2, kind := .inline, cert := false, chk := true, fresh := 0, entities := [(7, entN 7 93 [role21N])], expiry := [] }
+def envN : Env Nat := { pol := Policy.ideal, c := cN, now := 0, mdq := fun _ _ => .unavailable }
+example : (getItem envN 7 [src1N, src2N]).1 = .ok idpN := by decide
+example : (serviceLoop envN 7 .idpsso 10 (some 21) [src1N, src2N] false).1 = .eps [{ svc := 10, binding := 21, location := 54 }] := by decide
+example : (serviceLoop envN 7 .idpsso 10 (some 22) [src1N, src2N] false).1 = .unsupported := by decide
+example : tagsOf (itemsOf [src1N, src2N]) = [(7, 1)] ∧ keysOf [src1N, src2N] = [7, 7] := by decide
+
+-- D: the second of three sources fails; a reload with a failing source; MDQ refresh
+def goodSpec (k : Nat) : SrcSpec Nat := { (specN .inline false (.doc (docN .unsigned idpN))) with key := k }
+def badSpec : SrcSpec Nat := { (specN .file false .unavailable) with key := 5 }
+example : (impFrom Policy.code 2 0 ([] : Store Nat) [goodSpec 1, badSpec, goodSpec 3]).2 = false ∧
+    ((impFrom Policy.code 2 0 ([] : Store Nat) [goodSpec 1, badSpec, goodSpec 3]).1.map (·.key)) = [1] := by decide
+example : reload Policy.code 2 0 [src1N] [goodSpec 1, badSpec] = ([src1N], false) := by decide
+def staleN : Source Nat := { mdqSrcN with entities := [(7, idpN)], expiry := [(7, 100)] }
+example : refetches 101 staleN 7 := Or.inr ⟨by decide, 100, by decide, by decide⟩
+example : (mdxGet Policy.ideal 2 101 .unavailable staleN 7).1 = .keyErr ∧
+    has (mdxGet Policy.ideal 2 101 .unavailable staleN 7).2.entities 7 = false := by decide
+example : (mdxGet Policy.ideal 2 101 (.doc (docN .wrongKey idpN)) staleN 7).1 = .raised ∧
+    has (mdxGet Policy.ideal 2 101 (.doc (docN .wrongKey idpN)) staleN 7).2.entities 7 = false := by decide
+example : (mdxGet Policy.ideal 2 100 .unavailable staleN 7).1 = .ok idpN := by decide
+example : (mdxGet Policy.ideal 2 101 (.doc (docN .valid repeatN)) staleN 7).1 = .ok repeatN := by decide
+
+-- E/F: a clean history with a verified remote source, an MDQ source, a failing reload and lookups
+def okN : List (MdqResp Nat) := [{ src := 9, eid := 8, fetch := .doc (docN .valid (entN 8 94 [roleN .spsso [2] 55])) }]
+def mdq9N : SrcSpec Nat := { (specN .mdq true .unavailable) with key := 9 }
+def imp2N : Step Nat := { now := 0, mdq := [], op := .imp [specN .remote true (.doc (docN .valid idpN)), mdq9N] }
+def reloadBadN : Step Nat := { now := 5, mdq := okN, op := .reload [badSpec] }
+def hGood : List (Step Nat) :=
+  [imp2N, qStep 0 okN (.get 7), qStep 0 okN (.get 8), qStep 0 okN .keys, reloadBadN, qStep 700 [] (.get 8), qStep 700 [] .items]
+example : cleanRun cN [] hGood = true := by decide
+example : (run Policy.code cN [] hGood).1 =
+    [.done true, .ent 1 [0, 1, 0, 0, 0, 0], .ent 94 [1, 0, 0, 0, 0, 0], .strs [7, 8], .done false, .missing, .ents [(7, 1)]] := by decide
+example : cleanRun cN [] hF9 = false ∧ cleanRun cN [] hF11 = false ∧ cleanRun cN [] hF18 = false := by decide
+
 end C11
